@@ -170,11 +170,24 @@ def run_job(job):
             os.symlink(str(work / "linktarget.bin"), str(dst))
         elif job["dst"] == "same":
             dst = base
+        elif job["dst"] == "dotdot":
+            # the destination is NAMED through a symlinked directory followed by "..": physically it is
+            # realdir/out.scx (absent); collapsing the ".." textually would name work/out.scx, somebody else's file
+            (work / "realdir" / "sub").mkdir(parents=True)
+            os.symlink(str(work / "realdir" / "sub"), str(work / "link"))
+            dst = Path(os.path.join(str(work), "link", "..", "out.scx"))
+        elif job["dst"] == "brackets":
+            # a file name holding glob metacharacters (the usual map tagging)
+            dst = work / "[EUD] out [v1].scx"
         # bystanders: unrelated files next to the destination under the names a careless staging scheme would pick
         bystanders = {}
         for suffix in (".part", ".tmp", ".bak", "~", ".new", ".partial"):
             q = work / ("out.scx" + suffix)
             q.write_bytes(b"somebody else's file " + suffix.encode())
+            bystanders[q.name] = sha(q)
+        if job["dst"] == "dotdot":
+            q = work / "out.scx"
+            q.write_bytes(b"the file a textual collapse of '..' would hit")
             bystanders[q.name] = sha(q)
         hidden = work / ".out.scx.swp"
         hidden.write_bytes(b"hidden bystander")
@@ -238,7 +251,7 @@ def run_job(job):
         else:
             dclass = "new" if os.path.getsize(dst) > 100 else "broken"
         leftovers = sorted(os.listdir(tmpd)) + sorted(p.name for p in work.iterdir()
-                                                       if p.name not in ("tmp", "base.scx", "out.scx", "linktarget.bin") and not p.name.startswith("sound")
+                                                       if p.name not in ("tmp", "base.scx", "out.scx", "linktarget.bin", "realdir", "link", "[EUD] out [v1].scx") and not p.name.startswith("sound")
                                                        and p.name not in bystanders)
         disturbed = sorted(nm for nm, h in bystanders.items() if sha(work / nm) != h)
         if job["dst"] == "symlink" and dclass == "unchanged" and not os.path.islink(dst):
